@@ -5,12 +5,12 @@ CONSTS = {"CertKeys": '{"k1","k2","k3"}'}
 GEN_CFGS = {}
 
 
-def G(tag, classes, depth, num, props, nidl=False, base=True, sw=False, regw=False, unix=False, nide=False, lstate=False, life=0):
+def G(tag, classes, depth, num, props, nidl=False, base=True, sw=False, regw=False, unix=False, nide=False, lstate=False, life=0, so=False, twoh=False):
     name = "HandshakeGen_%s.cfg" % tag
     GEN_CFGS[name] = ("SPECIFICATION Spec\nCONSTANTS\n  CertKeys = {\"k1\",\"k2\",\"k3\"}\n  Depth = %d\n  Classes = {%s}\n  CfgNidl = %s\n  CfgBase = %s\nCHECK_DEADLOCK FALSE\n"
                       % (depth, ",".join('"%s"' % c for c in classes), "TRUE" if nidl else "FALSE", "TRUE" if base else "FALSE"))
     return dict(module="HandshakeGen.tla", cfg=name, depth=depth, num=num, props=props, tag=tag,
-                beh_cfg=dict(nidl=nidl, nide=nide, lstate=lstate, base=base, sw=sw, regw=regw, unix=unix, lifeSec=life, certKeys=["k1", "k2", "k3"]))
+                beh_cfg=dict(nidl=nidl, nide=nide, lstate=lstate, base=base, sw=sw, regw=regw, unix=unix, lifeSec=life, so=so, twoh=twoh, certKeys=["k1", "k2", "k3"]))
 
 
 def materialise(scr):
@@ -32,6 +32,12 @@ GENS = [
     # real time (8 s roots): adversarial clients and honest dials across waits, promotions and a late operator
     G("c02p", ["Enroll", "ConnectHonest", "ConnectNear", "ConnectNear", "Dial", "WaitOverlap", "RotateWait", "ExpireWait", "Remove"], 9,
       dict(quick=10, thorough=160), ["C02", "C07"], nidl=True, life=8),
+    # the store-once back end, which looks records up by node id itself; the file back end with the listener and the operator
+    # on two handles of one directory
+    G("c02e", ["Enroll", "Remove", "Remove", "ConnectNear", "ConnectHonest", "ConnectReplay"], 10,
+      dict(quick=20, thorough=400), ["C02"], nidl=True, so=True),
+    G("c07c", ["NewNode", "DialPending", "AuthorizePending", "DialPending", "Enroll", "Dial", "Remove", "ConnectHonest"], 10,
+      dict(quick=15, thorough=300), ["C07", "C02"], twoh=True),
     G("c07a", ["NewNode", "DialPending", "AuthorizePending", "DialPending", "Enroll", "Rogue", "Rogue", "Dial", "Remove"], 10,
       dict(quick=30, thorough=500), ["C07"]),
     G("c07b", ["NewNode", "DialPending", "AuthorizePending", "Enroll", "Rogue", "Dial"], 9,
